@@ -102,7 +102,8 @@ Value& OpDIVExpression::value(Context& ctx) const
         Integer l = *a2.integer();
         if (l == 0)
           throw RuntimeError(EXC_RT_DIVIDE_BY_ZERO);
-        Value val(Integer(*a1.integer() / l));
+        /* INT64_MIN / -1 overflows (traps): the result wraps to INT64_MIN */
+        Value val(l == -1 ? Integer(uint64_t(0) - uint64_t(*a1.integer())) : Integer(*a1.integer() / l));
         return LVAL2(val, a1, a2);
       }
       case Type::IMAGINARY:
